@@ -13,6 +13,6 @@ M=""
 for f in $(cd $W && git status --porcelain | awk '{print $2}'); do M="$M,$f=$W/$f"; done
 M=${M#,}
 cd /verif
-VERIF_MUTATE="$M" ./run.sh $ID quick "$@" 2>&1 | grep -v "exhaustive=true" | awk "NR<=12"
+VERIF_MUTATE="$M" ./run.sh $ID quick "$@" 2>&1 | grep -v "exhaustive=true\|^KNOWN-FINDING\|^NOTE \|^  (C09 suspicion" | awk "NR<=12"
 rc=${PIPESTATUS[0]}
 echo "exit=$rc"
